@@ -55,7 +55,8 @@ def combine(master_template, args):
     subs = {}
     for cg in args:
         mangled = cg.mangle()
-        fmts.append(mangled.template)
+        # Parenthesized: the master template mixes these with "and"/"or"
+        fmts.append(f"({mangled.template})")
         subs.update(mangled.substitutions)
     return CodeGen(master_template.format(*fmts), subs)
 
